@@ -545,7 +545,7 @@ func (x Int64List) Item(i int) Value {
 
 ///////////////////////
 
-type UInt64 uint
+type UInt64 uint64
 
 func (UInt64) Format() Format {
 	return FmtUInt64
